@@ -317,8 +317,13 @@ def redrive(src):
 
 MODELS = {"quick": [("LineParser", "LineParser_dfa.cfg", "line-by-line parser + DFA builder: all permutations (<= 6 lines; "
                      "rotations beyond) x optional declarations x single faults; refines Text.tla"),
-                    ("LineParser", "LineParser_nfa.cfg", "the same for the NFA format")],
-          "thorough": [("LineParser", "LineParser_dfa.cfg", "DFA format"), ("LineParser", "LineParser_nfa.cfg", "NFA format")]}
+                    ("LineParser", "LineParser_nfa.cfg", "the same for the NFA format"),
+                    ("LineParser", "LineParser_pda_q.cfg", "rotations and reversals of the lines, PDA format (PDABuilder: glyph default, stack "
+                     "symbols, ill-formed labels, the constructor's asserts)"),
+                    ("LineParser", "LineParser_tm_q.cfg", "rotations and reversals of the lines, TM format (TMBuilder: fresh accept / reject "
+                     "names, blank default, derived input alphabet, the constructor's asserts)")],
+          "thorough": [("LineParser", "LineParser_dfa.cfg", "DFA format"), ("LineParser", "LineParser_nfa.cfg", "NFA format"),
+                       ("LineParser", "LineParser_pda.cfg", "PDA format"), ("LineParser", "LineParser_tm.cfg", "TM format")]}
 RULE = ("for each of the four text formats: random small automata rendered in random layouts (line order, optional "
         "declarations present or not, comments and blank lines, several labels per line or one per line) and, in 85% of "
         "the cases, one of 18 single-fault corruptions (duplicate declaration/entry, empty states, short transition, bad "
@@ -341,7 +346,7 @@ def gen_tasks(tier, info):
     import os
     from .. import tlc, common
     ts = []
-    for kind in ("dfa", "nfa"):
+    for kind in ("dfa", "nfa", "pda", "tm"):
         path = os.path.join(common.outdir(PID, "gen"), "layouts_%s.ndjson" % kind)
         n, dist, g = tlc.generate_behaviours("LineParser", "LineParser_gen_%s.cfg" % kind, path)
         info[kind] = n
